@@ -154,13 +154,65 @@ class ModuleInfo:
 _ALIASES = {"np": "numpy", "sp": "scipy", "pd": "pandas", "plt": "matplotlib.pyplot"}
 
 
+def _loop_names(tree, call, var):
+    """names a loop variable ranges over when the enclosing `for var in X` iterates a literal tuple / list / set of
+    strings, a string literal (its characters), or a module-level constant bound once to one of these; else None"""
+    parents = {}
+    for p in ast.walk(tree):
+        for c in ast.iter_child_nodes(p):
+            parents[id(c)] = p
+    n = call
+    loop = None
+    while id(n) in parents:
+        n = parents[id(n)]
+        if isinstance(n, ast.For) and isinstance(n.target, ast.Name) and n.target.id == var:
+            loop = n
+            break
+        if isinstance(n, (ast.FunctionDef, ast.AsyncFunctionDef, ast.Lambda)):
+            break
+    if loop is None:
+        return None
+
+    def lit(e, depth=0):
+        if isinstance(e, ast.Constant) and isinstance(e.value, str):
+            return list(e.value)
+        if isinstance(e, (ast.Tuple, ast.List, ast.Set)) and all(isinstance(x, ast.Constant) and isinstance(x.value, str) for x in e.elts):
+            return [x.value for x in e.elts]
+        if isinstance(e, ast.Name) and depth == 0:
+            asg = [st for st in tree.body if isinstance(st, ast.Assign) and any(isinstance(t, ast.Name) and t.id == e.id for t in st.targets)]
+            asg += [st for st in tree.body if isinstance(st, ast.AnnAssign) and isinstance(st.target, ast.Name) and st.target.id == e.id and st.value is not None]
+            if len(asg) == 1:
+                return lit(asg[0].value, 1)
+        return None
+
+    return lit(loop.iter)
+
+
 class Program:
+    def attribute_is_stored(self, name):
+        """does any module of the package store (or set through setattr with a literal / resolved name) an attribute `name`?"""
+        cache = self.__dict__.setdefault("_stored_attrs", None)
+        if cache is None:
+            cache = set()
+            for m in self.modules.values():
+                for n in ast.walk(m.tree):
+                    if isinstance(n, ast.Attribute) and isinstance(n.ctx, ast.Store):
+                        cache.add(n.attr)
+                    elif isinstance(n, ast.Call) and isinstance(n.func, ast.Name) and n.func.id == "setattr" and len(n.args) >= 2:
+                        if isinstance(n.args[1], ast.Constant) and isinstance(n.args[1].value, str):
+                            cache.add(n.args[1].value)
+                        else:
+                            cache.update(self.dyn_names.get((m.relpath, n.lineno), ()))
+            self.__dict__["_stored_attrs"] = cache
+        return name in cache
+
     def __init__(self, root: str | None = None):
         self.root = root or repo_root()
         self.src_root = os.path.join(self.root, "src")
         self.modules: dict[str, ModuleInfo] = {}
         self.functions: dict[str, FunctionInfo] = {}
         self.classes: dict[str, ClassInfo] = {}
+        self.dyn_names: dict = {}  # (relpath, lineno) of setattr/delattr with a loop variable -> the names it ranges over
         self.n_calls = 0
         self.by_node = {}
         self._load()
@@ -199,6 +251,14 @@ class Program:
                     if fid in ("setattr", "delattr"):
                         # a constant attribute name is as static as obj.name = v; a computed name defeats the effect analysis
                         dynamic = not (len(n.args) >= 2 and isinstance(n.args[1], ast.Constant) and isinstance(n.args[1].value, str))
+                        if dynamic and len(n.args) >= 2 and isinstance(n.args[1], ast.Name):
+                            # ... unless it is the variable of a loop over a literal collection of names (or over a
+                            # module constant bound to one): the names are then known - for a string constant they are
+                            # its characters, which is what Python iterates
+                            names = _loop_names(m.tree, n, n.args[1].id)
+                            if names is not None:
+                                self.dyn_names[(m.relpath, n.lineno)] = names
+                                dynamic = False
                     # getattr / hasattr with a computed name are *reads*: the interpreter resolves the name when it
                     # evaluates to a string constant (a loop over a literal table) and otherwise yields an opaque value
                     if dynamic:
